@@ -118,7 +118,9 @@ class Template(abc.ABC):
         if not path.is_dir():
             raise FailedToCreateTemplate(f"Template folder do not exist or is not a directory: {path}")
         
-        for entry in path.iterdir():
+        # The order in which the file system lists the entries must not matter: when two 
+        # names only differ by their case the last one wins (see L{TemplateLookup.add_template}).
+        for entry in sorted(path.iterdir(), key=lambda e: e.name):
             entry_path = subdir.joinpath(entry.name)
             if entry.is_dir():
                 yield from Template.fromdir(basedir, entry_path)
